@@ -95,25 +95,39 @@ class AbstractExcelInPython(ABC):
             case _:
                 raise self.ExcelInPythonException('unknown operator ' + operator)
 
+    def _to_number(self, operand: Any) -> int | float:
+        # Числа сравниваются как есть (int и float в Python сравниваются точно), bool и пустая ячейка - как int,
+        # текст, похожий на число, приводится к числу; всё остальное числом не является
+        if isinstance(operand, float):
+            return operand
+        if isinstance(operand, int):
+            return int(operand)
+        if isinstance(operand, str):
+            try:
+                return int(operand)
+            except ValueError:
+                number = float(operand)
+                if number != number:
+                    raise ValueError('nan is not a number')
+                return number
+        raise TypeError('operand is not a number')
+
     def _compare(self, operator: str, left_operand: str | int | float | datetime.date | datetime.datetime,
                           right_operand: str | int | float | datetime.date | datetime.datetime) -> bool:
         try:
-            return self._by_operator(operator, int(left_operand), int(right_operand))
+            return self._by_operator(operator, self._to_number(left_operand), self._to_number(right_operand))
         except (ValueError, TypeError):
             try:
-                return self._by_operator(operator, float(left_operand), float(right_operand))
+                # Приводим date к datetime для удобного сравнения
+                if isinstance(left_operand, datetime.date) and not isinstance(left_operand, datetime.datetime):
+                    left_operand = datetime.datetime(left_operand.year, left_operand.month, left_operand.day)
+
+                if isinstance(right_operand, datetime.date) and not isinstance(right_operand, datetime.datetime):
+                    right_operand = datetime.datetime(right_operand.year, right_operand.month, right_operand.day)
+
+                return self._by_operator(operator, left_operand, right_operand)
             except (ValueError, TypeError):
-                try:
-                    # Приводим date к datetime для удобного сравнения
-                    if isinstance(left_operand, datetime.date) and not isinstance(left_operand, datetime.datetime):
-                        left_operand = datetime.datetime(left_operand.year, left_operand.month, left_operand.day)
-                    
-                    if isinstance(right_operand, datetime.date) and not isinstance(right_operand, datetime.datetime):
-                        right_operand = datetime.datetime(right_operand.year, right_operand.month, right_operand.day)
-                    
-                    return self._by_operator(operator, left_operand, right_operand)
-                except (ValueError, TypeError):
-                    return self._by_operator(operator, str(left_operand), str(right_operand))
+                return self._by_operator(operator, str(left_operand), str(right_operand))
 
 
     def _flatten_list(self, subject: List) -> List:
